@@ -10,7 +10,6 @@ EXTENDS SchemaCore
 
 Viol(rule, off) == [rule |-> rule, off |-> off]
 
-AllDirs(s) == [n \in DOMAIN s.dirs \cup DOMAIN CoreDirs |-> IF n \in DOMAIN s.dirs THEN s.dirs[n] ELSE CoreDirs[n]]
 TypeDefined(s, n) == n \in BuiltinScalars \/ n \in DOMAIN s.types
 KindOfT(s, n) == IF n \in BuiltinScalars THEN "SCALAR" ELSE IF n \in DOMAIN s.types THEN s.types[n].kind ELSE "UNDEFINED"
 IsInputT(s, t) == KindOfT(s, BaseName(t)) \in {"SCALAR", "ENUM", "INPUT_OBJECT"}
@@ -117,8 +116,7 @@ DirReach(s, frontier, seen) ==
 DirCycle(s, n) == n \in DirReach(s, {n}, {})
 
 DefViols(s, dv, d) ==
-  LET locOf == [ OBJECT |-> "OBJECT", INTERFACE |-> "INTERFACE", UNION |-> "UNION", ENUM |-> "ENUM",
-                 INPUT_OBJECT |-> "INPUT_OBJECT", SCALAR |-> "SCALAR", SCHEMA |-> "SCHEMA", DIRECTIVE |-> "" ]
+  LET locOf == [k \in {"OBJECT", "INTERFACE", "UNION", "ENUM", "INPUT_OBJECT", "SCALAR", "SCHEMA"} |-> k]   \* type-level location = kind
   IN (IF d.kind \in {"DIRECTIVE", "SCHEMA"} THEN {} ELSE NameViols("type", d.name))
      \cup (IF d.kind = "DIRECTIVE" THEN NameViols("directive", d.name) ELSE UseViols(s, d.name, locOf[d.kind], d.dirs))
      \cup CASE d.kind = "OBJECT" -> FieldsViols(s, dv, d) \cup ImplViols(s, d)
